@@ -224,15 +224,32 @@ func GenRequest(c *choice.Stream, v primitive.ProtocolVersion, tok string, execI
 	if payload {
 		pl = map[string][]byte{"k": genBytes(c, 64)}
 	}
+	// rarer header shapes: the USE_BETA flag (drivers that negotiate beta versions set it on every
+	// frame), and the CUSTOM_PAYLOAD flag over an empty payload map
+	beta := c.Choose("usebeta", 8) == 7
+	emptyPayload := payload && c.Choose("emptypayload", 4) == 3
 	g.Mod = func(f *frame.Frame) {
 		if tracing {
 			f.RequestTracingId(true)
 		}
 		if payload {
 			f.SetCustomPayload(pl)
+			if emptyPayload {
+				f.Body.CustomPayload = map[string][]byte{}
+				f.Header.Flags = f.Header.Flags.Add(primitive.HeaderFlagCustomPayload)
+			}
+		}
+		if beta {
+			f.Header.Flags = f.Header.Flags.Add(primitive.HeaderFlagUseBeta)
 		}
 	}
 	g.Desc = fmt.Sprintf("%s %s cl=%v tracing=%v payload=%v", g.Kind, v, g.CL, tracing, payload)
+	if beta {
+		g.Desc += " use-beta"
+	}
+	if emptyPayload {
+		g.Desc += " empty-payload"
+	}
 	return g
 }
 
